@@ -678,6 +678,40 @@ func orderFrames() [][]byte {
 	return conns
 }
 
+// greetings: what an h2-negotiating client may send INSTEAD of the client preface - the 24 bytes the server reads
+// (on a goroutine of its own) before anything else: HTTP/1.x request lines of every shape (method alone, no
+// space, one field, many fields, lower case, blanks only), near-prefaces with one byte changed, CR/LF runs,
+// NULs. Added after seeded change C10-N (an error message for "bogus greetings" that indexed past a split line).
+func greetings() [][]byte {
+	var out [][]byte
+	pad := func(s string) []byte {
+		b := []byte(s)
+		for len(b) < 48 {
+			b = append(b, "\r\nHost: example.org\r\n\r\n"...)
+		}
+		return b
+	}
+	for _, m := range []string{"GET", "POST", "HEAD", "OPTIONS", "PRI", "CONNECT", "get", "G", "PATCHPATCHPATCHPATCHPATCHPATCH"} {
+		for _, rest := range []string{"\r\n", "\n", " \r\n", "  \r\n", " /\r\n", " / HTTP/1.1\r\n", " * HTTP/2.0\r\n\r\nSM\r\n", "\t/\r\n", "\x00", ""} {
+			out = append(out, pad(m+rest))
+		}
+	}
+	for _, s := range []string{"\r\n\r\n\r\n\r\n\r\n\r\n\r\n\r\n\r\n\r\n\r\n\r\n", "                        ", "\x00\x00\x00\x00\x00\x00\x00\x00\x00\x00\x00\x00\x00\x00\x00\x00\x00\x00\x00\x00\x00\x00\x00\x00", "AAAAAAAAAAAAAAAAAAAAAAAA", " GET / HTTP/1.1\r\n", "\r\nGET / HTTP/1.1\r\n"} {
+		out = append(out, pad(s))
+	}
+	pre := []byte(h2peer.ClientPreface)
+	for i := range pre {
+		for _, x := range []byte{' ', '\r', 'X'} {
+			if pre[i] != x {
+				b := append([]byte{}, pre...)
+				b[i] = x
+				out = append(out, append(b, h2peer.RawFrame(4, 0, 0, nil)...))
+			}
+		}
+	}
+	return out
+}
+
 func stallAt(c net.Conn, step string) {
 	h := &hello.Hello{LegacyVersion: 0x0303, Compression: []byte{0}, Random: make([]byte, 32), Ciphers: []uint16{0xc02f, 0x009c, 0x1301},
 		Exts: []hello.Ext{hello.SupportedGroups(29, 23), hello.PointFormats(0), hello.SigAlgs(0x0804, 0x0401, 0x0403), hello.ALPN("h2", "http/1.1")}}
@@ -944,6 +978,9 @@ func main() {
 		batched = append(batched, &tcase{Class: "post-handshake-bytes", Proto: "h2", raw: raw})
 	}
 	for _, raw := range orderFrames() {
+		batched = append(batched, &tcase{Class: "post-handshake-bytes", Proto: "h2", raw: raw})
+	}
+	for _, raw := range greetings() {
 		batched = append(batched, &tcase{Class: "post-handshake-bytes", Proto: "h2", raw: raw})
 	}
 	for i := run.Pick(60, 600); i > 0; i-- {
